@@ -107,7 +107,26 @@ def run_impl(c):
     for n in NAMES:
         v = init[n]
         val = int(v) if n.endswith('_steps') or c.get('int_init', {}).get(n) else float(v)
-        kw[n] = (lambda s, val=val: val) if c['callable'][n] else val
+        if c['callable'][n]:
+            # "already a function" = anything callable: a lambda, a functools.partial, an object with __call__, a bound method
+            kind = (sum(map(ord, n)) + len(c['ops'])) % 4
+            if kind == 0:
+                kw[n] = lambda s, val=val: val
+            elif kind == 1:
+                import functools
+                kw[n] = functools.partial(lambda val, s: val, val)
+            elif kind == 2:
+                class _Sched:
+                    def __init__(self, v): self.v = v
+                    def __call__(self, s): return self.v
+                kw[n] = _Sched(val)
+            else:
+                class _Holder:
+                    def __init__(self, v): self.v = v
+                    def at(self, s): return self.v
+                kw[n] = _Holder(val).at
+        else:
+            kw[n] = val
     p = KFACPreconditioner(model, **kw)
     calls = []
     lam = {}
@@ -130,7 +149,11 @@ def run_impl(c):
             model(torch.ones(4, 2)).sum().backward()
             p.step()
         else:
-            sch.step(None if op[1] < 0 else op[1])
+            try:
+                sch.step(None if op[1] < 0 else op[1])
+            except Exception as e:  # noqa: BLE001  (a scheduler that was accepted must be able to step)
+                states.append(['raised', type(e).__name__])
+                break
         st = []
         for n in NAMES:
             if c['callable'][n]:
